@@ -243,7 +243,7 @@ type hostileGen struct {
 func newHostileGen(seed int64, tier string) *hostileGen {
 	g := &hostileGen{seed: seed, tier: tier, n: 3000}
 	if tier == "thorough" {
-		g.n = 30000
+		g.n = 15000
 	}
 	g.nonCo = mixClasses
 	return g
